@@ -162,10 +162,10 @@ theorem nInner (lim : Bool) :
   refine computeFold_eval (wEnv lim) 62 nComp2 nF2 _ (wV 2) [nD 1, nD 2] [nD 1, nD 2] (none, none) _
     rfl rfl rfl (by cases lim <;> rfl) ?_
   have e1 : foldOne (wEnv lim) 62 nComp2 nF2 "Number" (none, none) (nD 1) = .ok (some (nD' 1 0 [])) :=
-    foldOne_eval _ _ _ _ _ _ _ [] [] _ rfl (by rw [nLeaf]; rfl) rfl
+    foldOne_eval _ _ _ _ _ _ _ [] [] _ rfl (by show computeComponent (wEnv lim) 62 nComp3 _ = _; rw [nLeaf]; cases lim <;> rfl) (by cases lim <;> rfl)
   have e2 : foldOne (wEnv lim) 62 nComp2 nF2 "Number" (none, none) (nD 2) =
       .ok (some (nD' 2 2 [.int64 4, .int64 6])) :=
-    foldOne_eval _ _ _ _ _ _ _ [4, 6] (wElems 4 6 3) _ rfl (by rw [nLeaf]; rfl) rfl
+    foldOne_eval _ _ _ _ _ _ _ [4, 6] (wElems 4 6 3) _ rfl (by show computeComponent (wEnv lim) 62 nComp3 _ = _; rw [nLeaf]; cases lim <;> rfl) (by cases lim <;> rfl)
   show filterMapR (fun c => foldOne (wEnv lim) 62 nComp2 nF2 "Number" (none, none) c) [nD 1, nD 2] = _
   simp only [filterMapR, e1, e2]
 
